@@ -452,10 +452,25 @@ class Program(object):
         return cache[ckey]
 
     # ------------------------------------------------------------------ constant folding
-    def fold(self, expr, module, cls=None, env=None, _depth=0):
+    def fold(self, expr, module, cls=None, env=None, _depth=0, _updates=True):
         """Fold an expression to a Python value or raise NotConst."""
         if _depth > 40:
             raise NotConst('depth')
+        ups = getattr(module, 'updates', None)
+        if _updates and ups and id(expr) in ups:
+            # the initialiser of a module-level table that later statements complete with TABLE.update(...)
+            v = self.fold(expr, module, cls, env, _depth + 1, _updates=False)
+            if not isinstance(v, dict):
+                raise NotConst('update of a non-dict')
+            v = dict(v)
+            for u in ups[id(expr)]:
+                try:
+                    v.update(self.fold(u, module, None, None, _depth + 1))
+                except NotConst:
+                    raise
+                except Exception as e:
+                    raise NotConst('update: %s' % e)
+            return v
         f = lambda e: self.fold(e, module, cls, env, _depth + 1)
         if isinstance(expr, ast.Constant):
             return expr.value
@@ -597,19 +612,7 @@ class Program(object):
         if isinstance(r, tuple) and r[0] == 'assign':
             key = ('m', r[1].name, id(r[2]))
             if key not in self._fold_cache:
-                v = self.fold(r[2], r[1], None, None, _depth + 1)
-                ups = r[1].updates.get(id(r[2]))
-                if ups and isinstance(v, dict):
-                    v = dict(v)
-                    for u in ups:
-                        uv = self.fold(u, r[1], None, None, _depth + 1)
-                        try:
-                            v.update(uv)
-                        except Exception as e:
-                            raise NotConst('update: %s' % e)
-                elif ups:
-                    raise NotConst('update of a non-dict')
-                self._fold_cache[key] = v
+                self._fold_cache[key] = self.fold(r[2], r[1], None, None, _depth + 1)
             return self._fold_cache[key]
         if isinstance(r, tuple) and r[0] == 'classattr':
             key = ('c', r[1].qualname, id(r[2]))
